@@ -217,7 +217,14 @@ func classOf(rep cmdReply, err error) obsReply {
 	if err != nil {
 		return obsReply{class: "none", text: "no reply: " + err.Error()}
 	}
-	o := obsReply{text: fmt.Sprintf("%d %.160s", rep.Status, rep.Raw)}
+	// the errors of the two fork branches are joined in completion order: sort the parts
+	msg := rep.Raw
+	if se, ok := rep.Body["sys.Error"].(map[string]any); ok {
+		parts := strings.Split(fmt.Sprint(se["Message"]), ",")
+		sort.Strings(parts)
+		msg = strings.Join(parts, ",")
+	}
+	o := obsReply{text: fmt.Sprintf("%d %.160s", rep.Status, msg)}
 	switch {
 	case rep.Status >= 200 && rep.Status < 300:
 		o.class = "ok"
@@ -285,6 +292,17 @@ func execute(sc scenario) (*result, error) {
 				if op.Op == "ins" {
 					nIns++
 				}
+			}
+			// canonical description: the two branches of the fork run concurrently (view row first here),
+			// the NewIDs map of the raw reply comes in Go map order (rendered from the parsed values)
+			for i := 0; i+1 < len(calls); i++ {
+				if strings.HasSuffix(calls[i], "@wlog") && strings.HasSuffix(calls[i+1], "@view") {
+					calls[i], calls[i+1] = calls[i+1], calls[i]
+					i++
+				}
+			}
+			if o.class == "ok" {
+				o.text = fmt.Sprintf("%d CurrentWLogOffset=%d NewIDs=%v", rep.Status, o.woff, o.ids)
 			}
 			st.Reply = o.class + " " + o.text
 			st.Calls = calls
